@@ -49,6 +49,50 @@ def render(t, spaced=False):
     raise ValueError(k)
 
 
+PLOTBAD = {"call": "open('plotpwn','w').name", "name": "x", "num": "1", "binop": "('a'+'b')", "attr": "'a'.upper", "lambda": "(lambda: 'a')", "comp": "[c for c in 'ab']",
+           "tuple": "('a','b')", "set": "{'a'}", "fstr": "f'a'", "bytes": "b'a'", "ifexp": "('a' if 'b' else 'c')", "none": "None", "subscript": "'ab'[0]"}
+
+
+def render_plot(t, n=[0]):
+    k = t[0]
+    if k == "str":
+        n[0] += 1
+        return "'s%d:flow'" % n[0]
+    if k == "bad":
+        return PLOTBAD[t[1]]
+    if k == "list":
+        return "[%s]" % ", ".join(render_plot(x) for x in t[1])
+    if k == "dict":
+        return "{%s}" % ", ".join("%s: %s" % (render_plot(a), render_plot(b)) for a, b in zip(t[1], t[2]))
+    raise ValueError(k)
+
+
+def try_plot_string(s, workdir):
+    """evaluate_plot_string on s: accepted (and equal to the literal it denotes) / rejected, and whether anything happened on the way."""
+    import ast
+
+    from atomica.utils import evaluate_plot_string
+
+    before = set(os.listdir(workdir))
+    try:
+        v = evaluate_plot_string(s)
+        out = "accepted"
+        try:
+            if v != ast.literal_eval(s):
+                out = "accepted with another value"
+        except Exception:
+            pass
+    except Exception:
+        out = "rejected"
+    sidefx = set(os.listdir(workdir)) != before
+    for f in set(os.listdir(workdir)) - before:
+        try:
+            os.remove(os.path.join(workdir, f))
+        except OSError:
+            pass
+    return out, sidefx
+
+
 def try_parse(s, workdir):
     from atomica.function_parser import parse_function
 
@@ -71,8 +115,9 @@ def run(prop, tier):
     cfg = lambda part, depth, inv: "SPECIFICATION Spec\nCONSTANTS\n  Depth = %d\n  Part = \"%s\"\n  EnvVals <- MCEnvVals\nINVARIANT %s\nCHECK_DEADLOCK FALSE\n" % (depth, part, inv)
     r1, syn = C.enumerate_cases(["Rat", "FuncParse", "MCFuncParse"], "MCFuncParse", cfg("syntax", 4 if thorough else 3, "SynInv"), timeout=3000)
     r2, ev = C.enumerate_cases(["Rat", "FuncParse", "MCFuncParse"], "MCFuncParse", cfg("eval", 2, "EvInv"), timeout=3000)
-    cov = dict(states=r1.distinct + r2.distinct, transitions=r1.generated + r2.generated, traces_validated_against_impl=0, samples=[], exhaustive=True,
-               syntax_trees=len(syn), eval_trees=len(ev))
+    r3, plots = C.enumerate_cases(["PlotString", "MCPlotString"], "MCPlotString", "SPECIFICATION Spec\nCONSTANTS\n  Depth = %d\n  BadKinds <- MCBad\nINVARIANT NoHidingPlace\nCHECK_DEADLOCK FALSE\n" % (3 if thorough else 2), timeout=3000)
+    cov = dict(states=r1.distinct + r2.distinct + r3.distinct, transitions=r1.generated + r2.generated + r3.generated, traces_validated_against_impl=0, samples=[], exhaustive=True,
+               syntax_trees=len(syn), eval_trees=len(ev), plot_string_trees=len(plots))
     wd = tempfile.mkdtemp(prefix="c19-", dir=C.scratch())
     cwd = os.getcwd()
     os.chdir(wd)
@@ -93,6 +138,13 @@ def run(prop, tier):
                 records.append(dict(id=rid, kind="syn", **{"class": c["class"]}, outcome=outcome, sidefx=sidefx))
                 index[rid] = dict(string=s, cls=c["class"], outcome=outcome, tree=c["tree"])
                 rid += 1
+        # the second entry point: plot specifications (lists / dicts of strings only, in every position and at every depth)
+        for c in plots:
+            ps_ = render_plot(c["tree"])
+            outcome, sidefx = try_plot_string(ps_, wd)
+            records.append(dict(id=rid, kind="syn", **{"class": c["class"]}, outcome=outcome, sidefx=sidefx))
+            index[rid] = dict(string=ps_, cls=c["class"], outcome=outcome, tree=c["tree"], entry="evaluate_plot_string")
+            rid += 1
         import json as _json
 
         # every arithmetic tree as it is, and with the variable x renamed to t (the name of the time variable: to the parser a name like any
